@@ -214,6 +214,31 @@ def explore(ck, n, atm, np, xrun=True):
             if xrun:
                 calls.append(("relative_humidity2vmr", (rh, p, T), float(atm.relative_humidity2vmr(rh, p, T))))
                 calls.append(("vmr2relative_humidity", (x, p, T), float(atm.vmr2relative_humidity(x, p, T))))
+    # ---------------- 2-d / 3-d temperature fields in several memory layouts (C, Fortran, transposed views, strided,
+    # read-only): every element equals the scalar call at that temperature (incl. the pure-ice and pure-liquid ranges)
+    for it in range(max(n // 25, 4)):
+        shp = rng.choice([(2, 3), (3, 2), (4, 5), (2, 3, 2)])
+        base = np.array([rng.choice([rng.uniform(100, 400), rng.uniform(TT - 30, TT + 5), TT, TT - 23.0])
+                         for _ in range(int(np.prod(shp)))]).reshape(shp)
+        for fn in ("e_eq_mixed_mk", "e_eq_ice_mk", "e_eq_water_mk"):
+            f = getattr(atm, fn)
+            want = np.array([float(f(float(t))) for t in base.ravel()]).reshape(shp)
+            variants = [("C", base.copy()), ("F", np.asfortranarray(base)), ("transposed-view", base.T.copy().T),
+                        ("moveaxis", np.moveaxis(np.moveaxis(base, 0, -1).copy(), -1, 0))]
+            lay, arr = rng.choice(variants)
+            arr2, lay2 = numlib.relayout(np, rng, base)
+            for label, a in ((lay, arr), (lay2, arr2)):
+                ck.case(key=("field", fn, label, shp, float(base.ravel()[0])), kind=f"field/{label}")
+                cf = {"fn": fn + "/field", "args": base.ravel().tolist()[:6], "shape": list(shp), "layout": label}
+                try:
+                    got = np.asarray(f(a))
+                except Exception as e:          # noqa: BLE001
+                    ck.violation("layout-raised", f"{fn} raised {type(e).__name__} for a {label} array of shape {shp}: {str(e)[:80]}", cf)
+                    continue
+                if got.shape != want.shape or not np.allclose(got, want, rtol=1e-13, atol=0.0):      # (vectorised exp/log/tanh may differ from the scalar path in the last bits)
+                    bad = int(np.sum(~np.isclose(got, want, rtol=1e-13, atol=0.0))) if got.shape == want.shape else -1
+                    ck.violation("layout-dependent", f"{fn} on a {label} array of shape {shp}: {bad} elements differ from the scalar calls "
+                                                     f"(e.g. {got.ravel()[:3].tolist()} vs {want.ravel()[:3].tolist()})", cf)
     # ---------------- array calls: no argument / callback result is modified, repeatable, layout-independent;
     # "any saturation function" includes one that hands out a persistent table (memoised e_s)
     for it in range(max(n // 15, 6)):
